@@ -530,6 +530,9 @@ Section WithFacts.
     | O => OutOfFuel
     | S fuel' =>
         let rsch := resolve_fields (x_cfg x) (x_schema x) in
+        (* a field whose rules do not resolve to a rules set: the document is held against something that is no schema *)
+        if existsb (fun kv => match snd kv with None => true | Some _ => false end) rsch
+        then Raise SchemaRuleTypeError "__normalize_mapping" else
         do ns <- run_pipeline (normalize_ctx fuel') x rsch (f_pipeline F) {| n_map := x_doc x; n_errs := [] |};
         Ok (n_map ns, n_errs ns)
     end.
